@@ -179,6 +179,39 @@ impl VisitExpr for IdOnly {
     }
 }
 
+/// An output whose default is NOT neutral: it shows where a fold started "from the default".
+#[derive(Clone, Debug, PartialEq)]
+pub struct Marked(pub Vec<String>);
+impl Default for Marked {
+    fn default() -> Self {
+        Marked(vec!["D".to_string()])
+    }
+}
+impl Combine for Marked {
+    fn combine(mut self, other: Self) -> Self {
+        self.0.extend(other.0);
+        self
+    }
+}
+/// leaf recorder with the marked output (identifier and literal leaves only; the rest are default leaves)
+pub struct MarkedRecorder(pub Vec<String>);
+impl Visit for MarkedRecorder {
+    type Output = Marked;
+    type Error = Injected;
+}
+impl VisitExpr for MarkedRecorder {
+    fn visit_literal_expression(&mut self, e: &WithRange<LiteralExpression>) -> visit::Result<Self> {
+        let t = lit_text(&e.0);
+        self.0.push(t.clone());
+        Ok(Marked(vec![t]))
+    }
+    fn visit_simple_identifier(&mut self, n: WithRange<&SimpleIdentifier>) -> visit::Result<Self> {
+        let t = format!("simple:{}", (n.0).0);
+        self.0.push(t.clone());
+        Ok(Marked(vec![t]))
+    }
+}
+
 /// a statement visitor that overrides two callbacks only (default statement leaves in between)
 pub struct OutputOnly(pub Rec);
 impl Visit for OutputOnly {
@@ -755,6 +788,32 @@ pub fn check_tree(ctx: &mut Ctx, prog: &Program, src: &str, exhaustive_k: bool, 
             }
         }
     }
+    // "starting from the default": with an output whose default is a visible marker, the folded result of a
+    // walk begins with that marker, and without the markers it is the sequence of callback results
+    {
+        let mut r = ExprVisitorRunner::with_inner(MarkedRecorder(Vec::new()));
+        ctx.eval();
+        let res = r.visit_program(prog);
+        let log = r.inner().0;
+        match res {
+            Ok(Marked(v)) => {
+                let stripped: Vec<&String> = v.iter().filter(|e| *e != "D").collect();
+                if v.first().map(|e| e.as_str()) != Some("D") || stripped != log.iter().collect::<Vec<_>>() {
+                    ctx.violation(
+                        "fold_does_not_start_from_default",
+                        &format!("with a marker as default value the walk returned {:?}; callbacks returned {:?}", &v[..v.len().min(12)], &log[..log.len().min(12)]),
+                        case(NK::None).with("visitor", Json::s("MarkedRecorder")),
+                    );
+                    return;
+                }
+                ctx.count("marked_default_walks_matched");
+            }
+            Err(_) => {
+                ctx.violation("fold_differs:marked", "a walk without injected failure returned an error", case(NK::None));
+                return;
+            }
+        }
+    }
     // statement level: the default VisitProgram traversal
     let mut want = Vec::new();
     for b in &model.blocks {
@@ -806,7 +865,40 @@ pub fn check_tree(ctx: &mut Ctx, prog: &Program, src: &str, exhaustive_k: bool, 
     ctx.nontrivial(hash_str(src));
 }
 
+/// `combine_all` itself (public): default . r1 . r2 ... rn, left to right; the first error is returned
+/// unchanged and nothing after it is evaluated.
+fn check_combine_all(ctx: &mut Ctx, rng: &mut crate::rng::Rng) {
+    let n = rng.range(0, 6);
+    let fail = if n > 0 && rng.coin() { Some(rng.below(n)) } else { None };
+    let pulled = std::cell::Cell::new(0usize);
+    let items = (0..n).map(|i| {
+        pulled.set(pulled.get() + 1);
+        if Some(i) == fail {
+            Err(Injected(i))
+        } else {
+            Ok(Marked(vec![format!("r{}", i)]))
+        }
+    });
+    ctx.eval();
+    let got: Result<Marked, Injected> = visit::combine_all(items);
+    let want: Result<Marked, Injected> = match fail {
+        Some(k) => Err(Injected(k)),
+        None => Ok(Marked(std::iter::once("D".to_string()).chain((0..n).map(|i| format!("r{}", i))).collect())),
+    };
+    let want_pulled = fail.map(|k| k + 1).unwrap_or(n);
+    if got != want || pulled.get() != want_pulled {
+        ctx.violation(
+            "combine_all_differs",
+            &format!("{} results, failure at {:?}: combine_all returned {:?} after evaluating {} of them; expected {:?} after {}", n, fail, got, pulled.get(), want, want_pulled),
+            Json::obj().with("n", Json::Num(n as f64)).with("fail_at", Json::s(format!("{:?}", fail))),
+        );
+        return;
+    }
+    ctx.count("combine_all_calls_matched");
+}
+
 pub fn run(ctx: &mut Ctx) {
+    ctx.cases("combine_all", 2_000, |ctx, rng, _| check_combine_all(ctx, rng));
     let n = ctx.size(8_000, 250_000);
     let exhaustive = true;
     ctx.cases("trees", n, |ctx, rng, _| {
